@@ -193,6 +193,30 @@ def run(prop, seed, tier):
                 if isinstance(n, model.Union) and pos:
                     if getattr(mod, n.name)._descriptor[0].discriminator != pos[sorted(pos)[0]]:
                         fail('discriminator', schema, 'discriminator differs')
+        # the isar spelling of expressions: operator functions, nested in each other and in themselves
+        isar_consts = [('I_A', 'shiftLeft(1, 4)', 1 << 4), ('I_B', 'bitMaskOr(bitMaskOr(1, 2), 4)', 7),
+                       ('I_C', 'shiftLeft(1, shiftLeft(1, 2))', 1 << (1 << 2)), ('I_D', 'bitMaskOr(shiftLeft(1, 3), shiftLeft(1, bitMaskOr(1, 4)))', 8 | (1 << 5)),
+                       ('I_E', 'shiftLeft(bitMaskOr(1, shiftLeft(1, 1)), 2)', (1 | 2) << 2), ('I_F', 'bitMaskOr(I_A, shiftLeft(I_B, 8))', 16 | (7 << 8)),
+                       ('I_G', 'shiftLeft(shiftLeft(shiftLeft(1, 1), 1), 1)', 8), ('I_H', '0x10', 16), ('I_I', '-3', -3)]
+        xml = '<xml>%s<struct name="IS"><member name="a" type="u8"><dimension size="I_E"/></member></struct></xml>' % ''.join(
+            '<constant name="%s" value="%s"/>' % (n, t) for n, t, _ in isar_consts)
+        src = sc.write('isarexpr.xml', xml)
+        out = sc.path('o_isar')
+        os.makedirs(out)
+        nodes, err, _ = lib.run_prophyc(['--isar', src, '--python_out', out])
+        cases += 1
+        if err:
+            fail('isar-rejected', xml, 'isar constants with operator functions rejected: %s' % err[:200])
+        else:
+            try:
+                mod = lib.import_generated(out, 'isarexpr')
+                for n, t, v in isar_consts:
+                    if getattr(mod, n, None) != v:
+                        fail('isar-constant', xml, '%s = %s: python constant %r, expected %d' % (n, t, getattr(mod, n, None), v))
+                if mod.IS._SIZE != 12:
+                    fail('isar-size', xml, 'array extent from I_E: struct size %r, expected 12' % (mod.IS._SIZE,))
+            except Exception as ex:
+                fail('isar-module', xml, 'the generated Python module does not import: %r' % ex)
         # the model-time evaluator must be a function of (expression, constants): same text, different constants
         for a, b in ((2, 3), (5, 7)):
             v = calc.eval('ROWS*COLS', {'ROWS': a, 'COLS': b})
